@@ -613,7 +613,7 @@ func (p *parser) readDirUse() (du *DirectiveUse, err error) {
 		}
 		for _, a := range dir.args.list {
 			if av := du.Args[a.N]; av == nil {
-				du.Args[a.N] = &ArgValue{Arg: a.N, Value: a.Default, line: p.line, col: p.col - len(a.N) + 1}
+				du.Args[a.N] = &ArgValue{Arg: a.N, Value: a.Default, line: du.line, col: du.col}
 			}
 		}
 	}
@@ -655,7 +655,12 @@ func (p *parser) readArgValue() (av *ArgValue, err error) {
 		return
 	}
 	av.line = p.line
-	av.col = p.col - len(av.Arg) - 1
+	av.col = p.col
+	if 0 < len(av.Arg) {
+		// The reader is past the name, maybe on the next line.
+		av.line = p.tokLine
+		av.col = p.tokCol - 1
+	}
 	if len(av.Arg) == 0 {
 		return nil, parseError(p.line, p.col, "argument name missing")
 	}
